@@ -126,7 +126,18 @@ def rule_regexcfg(E, R):
             R.cannot(rule, fn, "anchor not found")
             continue
         nw = [c for c in exprs(h["body"], "Call") if norm(c.get("callee", "")) == RX + "::new"]
-        ok = len(nw) == 1 and strip(nw[0]["args"][2]).get("m") == "settings" and is_param(strip(nw[0]["args"][2])["recv"], h, 1)
+        # the settings argument is `parser.settings()` of the parser handed to Regex::lex_with - taken here, or by the
+        # caller and passed down (the helper is analysed inlined into Regex::lex_with)
+        import sem
+        hl_ = E.hirs(r"LexWith<&ast::parse::FilterParser> for rhs_types::regex::\w+::Regex\}::lex_with$|Regex as lex::LexWith<&ast::parse::FilterParser>>::lex_with$")
+        ok = False
+        if len(nw) == 1 and len(hl_) == 1:
+            Sx = sem.Sem(E, hl_[0])
+            for x in Sx.sites():
+                if x.node is nw[0]:
+                    v_ = Sx.resolve(x.node["args"][2], x.frame)
+                    r_ = sem.is_method(v_.node, "settings")
+                    ok = r_ is not None and sem.param_index(Sx, r_, v_.frame) == 1
         R.check(ok, rule, fn, "compiled with the parser's own settings", where=h["span"])
         errs = [c for c in exprs(h["body"], "Call") if last_seg(norm(c.get("callee", ""))) == "ParseRegex"]
         R.check(len(errs) == 1, "R11-validate", fn, "an invalid or over-limit regex is a parse error (ParseRegex)", where=h["span"])
@@ -144,8 +155,8 @@ def rule_regexcfg(E, R):
                 for st_ in exprs(h["body"], "SLet"):
                     if st_["pat"].get("k") == "PBinding" and norm(st_["pat"].get("ty", "")) == "bool" and "init" in st_ and is_lit(st_["init"], False):
                         nm_ = st_["pat"]["name"]
-                        sets = {lit_value(a_["r"]) for a_ in exprs(h["body"], "Assign") if local_name(a_["l"]) == nm_}
-                        if sets == {True, False}:
+                        sets = [a_ for a_ in exprs(h["body"], "Assign") if local_name(a_["l"]) == nm_]
+                        if sets:
                             flags.add(nm_)
                 if c.get("k") == "Binary" and c["op"] == "Or" and local_name(c["l"]) in flags:
                     r = strip(c["r"])
